@@ -185,7 +185,7 @@ PLANS = {
     ),
     'C13': dict(
         oracle='C13', level='exploration', multi=True,
-        profiles=[('common', 8)], curated=[], configs=ALLCFG,
+        profiles=[('common', 6), ('common_smi', 2)], curated=[], configs=ALLCFG,
         cp=dict(max_ops=25, kinds=['P', 'P', 'P', 'P', 'P', 'Q', 'X', 'T'], xmodes=['a'], scripts={'p': ['r', 'Q'], 't': True}, final_stop=True),
         examples=(250, 2000), floor=(300, 3000),
         rule='Differential: generated machines in the common feature subset (hierarchy, 1-3 regions, conflicts, state-internal '
